@@ -15,6 +15,7 @@ from vlib import common
 from checks import _signal as S
 
 LEVEL = "proof"
+COVER_RULE = 'covering set (checks/_signal.py cover): a seeded pool of candidate configurations - %s - is planned by the REAL library; every candidate is labelled with its plan class (per stage: half-band / dft stage with F-domain or time-domain rate change, decimation grid aligned to block_len or not / poly-phase order) and its knob; one member of EVERY (plan class, knob) pair is measured, cheapest implementation periods first, members rotating with the seed; the run reports a violation when a required planner path or engine (REQUIRED_CLASSES, REQUIRED_ORDERS, cr32 / cr32s / cr64 / cr64s) is not hit. '
 
 
 def lim1(bits):
@@ -236,22 +237,20 @@ def run(ctx):
     for name in miss:
         ctx.violation("coverage: no measured configuration of this run went through the planner path `%s` (the covering pool no longer produces it)"
                       % name, {"missing_class": name, "classes_hit": sorted(classes_hit)}, no_input=True)
-    ctx.count("f1_signature_configurations_set_aside", len(f1_seen))
-    for txt in S.pool_map(S.probe_f1, [r["cfg"] for r in f1_seen[:4]]):
-        if txt and "F1" in S.ACTIVE:
-            ctx.known("F1", txt)
-        elif txt:
-            ctx.violation("C01: " + txt, {"finding": "F1 is not listed as known for this property any more", "what": txt}, no_input=True)
+    S.report_f1(ctx, f1_seen, S.probe_f1, "C01")
 
     ctx.cov["worst_margins"] = {k: round(v, 5) for k, v in sorted(worst.items())}
     ctx.cov["worst_margins_note"] = "ratios measured/bound (< 1 holds); gain_db_class_* are the largest |gain error| in dB per roll-off class"
     ctx.count("evaluations", measured + n_fits + n_fmt)
     ctx.cov["distinct_nontrivial"] = len(sigs)
-    ctx.cov["rule"] = ("rows: fixed core of 6 rational configurations (tightest margins of the pinned tree, one per planner path) plus seeded random "
-                       "draws from ratio class x recipe/flags x engine (thorough: the whole product, all M_P phases up to the cap, larger ones "
-                       "counted under `skipped`); fits: seeded random (ratio incl. irrational, recipe, flags, engine, channel, tone frequency). "
-                       "distinct_nontrivial = distinct (engine, exported stage plan, roll-off class, precision) tuples actually measured; "
-                       "every measured case has a non-empty plan and a non-zero response.")
+    ctx.cov["rule"] = ("rows: fixed core of 6 rational configurations (tightest margins of the pinned tree) plus the " + COVER_RULE % (
+                       "coprime ratios a:b up to 12, halving chains, large up-sampling and audio rates x 14 recipes (LQ..32-bit, LSR presets, steep) x engine "
+                       "(SIMD / portable, SOXR_DOUBLE_PRECISION) x knob in {recipe as is, phase_response 0 / 25 / 75 / 100 by field or recipe flag, "
+                       "stopband_begin < 1, stopband_begin > 1, passband_end, roll-off class, fractional precision 15..33}") +
+                       "fits: the same covering over irrational / interpolated ratios (interpolation orders 0-3 auto and forced), two tones per member "
+                       "(random and in the last 3 % of the pass-band), plus seeded random configurations (hi-prec clock, channels). Thorough: the whole "
+                       "product of the old ratio pools as well. distinct_nontrivial = distinct (engine, exported stage plan, roll-off class, precision) "
+                       "tuples actually measured; every measured case has a non-empty plan and a non-zero response.")
     ctx.assume(
         "MEASUREMENT, not proof: the spectral inequalities (|mean_r c_r| inside the roll-off class, max_r |c_r - G| <= 2^(1-bits)) are float64 "
         "evaluations on rows obtained from the real code for SAMPLED configurations; nothing proves that the Kaiser designs of filter.c meet them",
@@ -262,7 +261,13 @@ def run(ctx):
         "the fit carries a first-order frequency term (C04's clock allowance) and starts after the start-up horizon",
         "roll-off class `none` has no figure in soxr.h or the property: it is bounded by the next class (<= 0.01 dB); its flatness in units of "
         "2^(1-bits) is recorded under worst_margins but is no verdict; the internal LSR2Q class is read as `medium`",
-        "configurations matching known finding F1 (non-linear phase + power-of-two-L DFT stage, L >= 8) are skipped and counted",
+        "plans matching known finding F1 (a dft stage with power-of-two L not dividing block_len) receive no measurement signal: they are set aside, "
+        "counted, and up to 4 of them are probed in a child process (KNOWN-FINDING line when the misbehaviour shows)",
+        "an explicit stopband_begin > 1 admits aliasing / imaging above 2 - stopband_begin: the pass-band the property speaks about is read as "
+        "[0, min(passband_end, 2 - stopband_begin)] (for up-sampling _soxr_init enforces passband_end <= 2 - stopband_begin itself); the generator "
+        "keeps passband_end below it",
+        "known findings of the pinned tree (known_findings.d/signal.json: F-PH1, F-SG1, F-SG2, F-SG4) are recognised by a configuration/plan signature "
+        "AND a symptom bound; their margins are listed separately under worst_margins ([... signature])",
     )
     if broken and not ctx.violations:
         ctx.violation("Lean obligations of C01 no longer check: " + "; ".join(broken)[:1500],
